@@ -481,6 +481,18 @@ class Exec:
         self.cur_line = stmt.lineno
         return m(stmt, st)
 
+    def stmt_Global(self, stmt, st):
+        # `global x` exists to WRITE module state: a violation of the write frame (C09: results must not depend on history / threads)
+        self.oblige(st, "frame/write", f"module-state({', '.join(stmt.names)})@L{stmt.lineno - self.fn.lineno}", z3.BoolVal(False), stmt.lineno, note="write to module-level state")
+        for nm in stmt.names:
+            mod = getattr(self, "cur_module", None) or self.mi.mod
+            if hasattr(mod, nm) and nm not in st.store:
+                st.store[nm] = self.from_py(getattr(mod, nm), nm)
+        return [(st, Flow.NEXT, None)]
+
+    def stmt_Nonlocal(self, stmt, st):
+        raise Unsupported("nonlocal")
+
     def stmt_Pass(self, stmt, st):
         return [(st, Flow.NEXT, None)]
 
@@ -846,6 +858,15 @@ class Exec:
                     s.store[g] = val
                 for hnt in spec.hints:
                     s.assume(self.lemma_instance(hnt, s))
+                for hnt in spec.latch_hints:
+                    s.assume(self.lemma_instance(hnt, s, extra={"old": head_snapshot}))
+                # transition clauses first: each is an obligation under the latch state and, once stated, may be used (cut rule)
+                # by the preservation obligations that follow - an unproved one is reported anyway
+                for nm, e in spec.transition.items():
+                    tz = self.spec_bool(e, s, extra={"old": head_snapshot})
+                    self.oblige(s, f"step/{tag}", nm, tz, stmt.lineno)
+                    if nm in spec.cut:
+                        s.assume(tz)
                 for nm, e in spec.inv.items():
                     self.oblige(s, f"inv/{tag}/preserve", nm, self.spec_bool(e, s), stmt.lineno)
                 if it is not None and it.get("owner") is not None and ("children" in hw or "nchildren" in hw):
@@ -856,8 +877,6 @@ class Exec:
                         z3.And(s.heap["nchildren"][it["owner"]] == it["n"], z3.ForAll([kq := fresh("k", I)], z3.Implies(z3.And(0 <= kq, kq < it["n"]), s.heap["children"][it["owner"]][kq] == it["arr"][kq]))),
                         stmt.lineno,
                     )
-                for nm, e in spec.transition.items():
-                    self.oblige(s, f"step/{tag}", nm, self.spec_bool(e, s, extra={"old": head_snapshot}), stmt.lineno)
                 if spec.variant is not None:
                     v0 = self.spec_val(spec.variant, head_snapshot).z
                     v1 = self.spec_val(spec.variant, s).z
@@ -877,7 +896,7 @@ class Exec:
             out.append((s, Flow.NEXT, None))
         return out
 
-    def lemma_instance(self, hint: str, st: State):
+    def lemma_instance(self, hint: str, st: State, extra=None):
         """`LEMMA-NAME: expr` - an instance of a registered lemma (proved separately as lemma/<name>); recorded as used."""
         from .contract import LEMMAS
 
@@ -886,7 +905,14 @@ class Exec:
         if name not in LEMMAS:
             raise AnchorMismatch(f"hint refers to unknown lemma {name}")
         self.used_lemmas = getattr(self, "used_lemmas", set()) | {name}
-        return self.spec_bool(expr, st)
+        if LEMMAS[name].trusted:
+            self.assumed.add(f"trusted lemma {name}: {LEMMAS[name].goal}  [{LEMMAS[name].notes}]")
+        saved = getattr(self, "force_uf", False)
+        self.force_uf = True  # lemma instances speak about the operation SYMBOLS (SLICE, LOWER, ...): no native definitions are unfolded
+        try:
+            return self.spec_bool(expr, st, extra)
+        finally:
+            self.force_uf = saved
 
     def iter_source(self, node, st: State):
         """for-loop source -> dict(n=len, elems=[(VList...)], kind) ."""
@@ -2040,6 +2066,14 @@ def split_goal(g, depth=0):
         return out
     if z3.is_implies(g) and z3.is_and(g.arg(1)):
         return [z3.Implies(g.arg(0), c) for c in split_goal(g.arg(1), depth + 1)]
+    if z3.is_quantifier(g) and g.is_forall() and g.num_vars() == 1 and depth == 0:
+        # range peeling: (forall k. lo <= k < t + 1 ==> P(k))  ==  (forall k. lo <= k < t ==> P(k)) and (lo <= t ==> P(t))
+        peeled = _peel_last(g)
+        if peeled is not None:
+            out = []
+            for part in peeled:
+                out.extend(split_goal(part, depth + 1))
+            return out
     if z3.is_quantifier(g) and g.is_forall():
         b = g.body()
         if z3.is_implies(b) and z3.is_and(b.arg(1)) or z3.is_and(b):
@@ -2047,6 +2081,43 @@ def split_goal(g, depth=0):
             inst = z3.substitute_vars(b, *reversed(vs))
             return [z3.ForAll(vs, c) for c in split_goal(inst, depth + 1)]
     return [g]
+
+
+def _flatten_and(e):
+    if z3.is_and(e):
+        out = []
+        for c in e.children():
+            out.extend(_flatten_and(c))
+        return out
+    return [e]
+
+
+def _peel_last(g):
+    k = z3.Const(g.var_name(0), g.var_sort(0))
+    b = z3.substitute_vars(g.body(), k)
+    if not z3.is_implies(b):
+        return None
+    conds = _flatten_and(b.arg(0))
+    for idx, c in enumerate(conds):
+        if z3.is_lt(c) and c.arg(0).eq(k):
+            hi = z3.simplify(c.arg(1))
+            # hi == t + 1 ?
+            t = z3.simplify(hi - 1)
+            if z3.is_add(hi) and any(z3.is_int_value(a) and a.as_long() >= 1 for a in hi.children()) and not any(k.eq(x) for x in _subterms(hi)):
+                rest = [x for j, x in enumerate(conds) if j != idx]
+                lower_part = z3.ForAll([k], z3.Implies(z3.And(*rest, k < t), b.arg(1)))
+                last = z3.substitute(z3.Implies(z3.And(*rest) if rest else z3.BoolVal(True), b.arg(1)), (k, t))
+                return [lower_part, last]
+    return None
+
+
+def _subterms(e):
+    out, stack = [], [e]
+    while stack:
+        x = stack.pop()
+        out.append(x)
+        stack.extend(x.children())
+    return out
 
 
 _idc = [0]
